@@ -426,6 +426,157 @@ def spec_fold(chk, name, fnname, N):
     return ex, f
 
 
+def py_fold_mixed(name, nums):
+    """left fold of the binary operation (the identity element first for + and *, 0 - x and 1 / x for one operand):
+    ('exact', Fraction) | ('real', float32) | ('err', 'DivisionByZero')"""
+    op = {"+": "add", "-": "sub", "*": "mul", "/": "div"}[name]
+
+    def as_num(acc):
+        if acc[0] == "exact":
+            fr = acc[1]
+            return ("I", fr.numerator) if fr.denominator == 1 else ("Q", fr.numerator, fr.denominator)
+        return ("F", nl.bits_of_f32(acc[1]))
+
+    if name in ("+", "*") or len(nums) == 1:
+        acc = ("exact", Fraction(0 if name in ("+", "-") else 1))
+        rest = nums
+    else:
+        acc = ("exact", nl.py_value(nums[0])) if nums[0][0] != "F" else ("real", nl.f32_of_bits(nums[0][1]))
+        rest = nums[1:]
+    for v in rest:
+        acc = py_binop(op, as_num(acc), v)
+        if acc[0] == "err":
+            return acc
+    return acc
+
+
+B10 = 2**10
+
+
+def spec_fold_mixed(chk, name, fnname):
+    """n-ary fold with exact and inexact operands mixed (<= 3 operands, each an integer below 2^10 in magnitude or any
+    binary32): the result is the left fold of the binary operation - an error exactly when an exact zero divides an
+    accumulator that is still exact, otherwise the binary32 value of the IEEE operations applied left to right."""
+    from ..core import i32_to_f32 as conv
+    N = 3
+    ex = chk.executor(True)
+    nat = chk.ws.runner("dev")
+    vals = [ValIn(ex, "v%d" % k, allow_num=("Integer", "Real")) for k in range(N)]
+    ln = z3.Int("argc")
+    minlen = 1 if name in ("-", "/") else 0
+    ex.ctx.add(ln >= minlen, ln <= N)
+    for k, v in enumerate(vals):
+        ex.ctx.add(v.is_number, v.num.valid(), v.num.within(B10))
+    seq = nl.seq_of(ex, "args", [v.obj for v in vals], ln)
+    f = ex.resolve(fnname)
+    unit = "builtin (%s x ...) with inexact operands" % name
+    inputs = {"argc": ln}
+    chk.region_ns = {}
+    for k, v in enumerate(vals):
+        inputs.update(v.num.inputs("v%d" % k))
+    some_real = z3.Or(*[z3.And(ln > k, v.num.is_real) for k, v in enumerate(vals)])
+    fpop = {"+": z3.fpAdd, "-": z3.fpSub, "*": z3.fpMul, "/": z3.fpDiv}[name]
+    rne = z3.RNE()
+
+    def reference(n_args, real_flags):
+        """left fold for a concrete operand count and concrete exactness of every operand:
+        returns (exact?, n, d, binary32 term, error condition)"""
+        hard = []
+
+        def conv_acc(acc):
+            if acc[0]:
+                if acc[2] is not one:
+                    # an exact quotient of two integers meets an inexact operand: its conversion fl(a)/fl(b) is compared
+                    # by Number::div's own obligations; chained with a second division it is beyond z3's FP engine here
+                    hard.append(1)
+                    return z3.fpDiv(rne, conv(acc[1]), conv(acc[2]))
+                return conv(acc[1])
+            return acc[3]
+
+        def step(acc, k):
+            v = vals[k].num
+            is_real = real_flags[k]
+            err = acc[4]
+            if acc[0] and not is_real:
+                n, d = acc[1], acc[2]
+                if name == "+":
+                    n2, d2 = (n * one + v.i * d, d) if d is not one else (n + v.i, one)
+                elif name == "-":
+                    n2, d2 = (n - v.i * d, d) if d is not one else (n - v.i, one)
+                elif name == "*":
+                    n2, d2 = n * v.i, d
+                else:
+                    n2, d2 = n, (d * v.i if d is not one else v.i)
+                    err = z3.Or(err, v.i == 0)
+                return (True, n2, d2, None, err)
+            return (False, None, None, fpop(rne, conv_acc(acc), v.r if is_real else conv(v.i)), err)
+
+        ident = (True, zero if name in ("+", "-") else one, one, None, z3.BoolVal(False))
+        if name in ("+", "*") or n_args == 1:
+            acc = ident
+            ks = range(n_args)
+        else:
+            v0 = vals[0].num
+            acc = (False, None, None, v0.r, z3.BoolVal(False)) if real_flags[0] else (True, v0.i, one, None, z3.BoolVal(False))
+            ks = range(1, n_args)
+        for k in ks:
+            acc = step(acc, k)
+        return acc + (bool(hard),)
+
+    zero, one = z3.IntVal(0), z3.IntVal(1)
+
+    def shapes():
+        """the operand count and the exactness of every operand are decided on every path of the fold: enumerate the
+        (normally single) feasible combination"""
+        for c in ex.branches([ln == c for c in range(0, N + 1)]):
+            def rec(k, flags):
+                if k == c:
+                    yield c, list(flags)
+                    return
+                for b in ex.branches([vals[k].num.is_int, vals[k].num.is_real]):
+                    yield from rec(k + 1, flags + [b == 1])
+            yield from rec(0, [])
+
+    def replay_value(vv):
+        nums = [nl.num_from_model(vv, "v%d" % k) for k in range(vv["argc"])]
+        exp = py_fold_mixed(name, nums)
+        out = nat.cmd("builtin %s %d %s" % (name.encode().hex(), len(nums), " ".join(nl.tok_number(n) for n in nums)))
+        desc = "(%s %s): " % (name, " ".join(nl.tok_number(n) for n in nums))
+        ok, why = native_matches(out, exp)
+        if not ok and exp[0] == "real" and exp[1] == 0 and (name == "+" or (name == "-" and len(nums) == 1)):
+            # the sign of a zero sum depends on whether the fold starts from the identity element: not part of the property
+            t = out.split()
+            if t[:2] == ["OK", "F"] and int(t[2], 16) & 0x7fffffff == 0:
+                ok = True
+        return (not ok and "panicked" not in why), desc + why
+
+    ex.panic_hook = lambda info: chk.unit(unit).__setitem__("panic_outcomes", chk.unit(unit)["panic_outcomes"] + 1)
+    for rv in ex.run(f, [seq]):
+        chk.path(unit)
+        for n_args, flags in shapes():
+            if not any(flags):
+                continue        # all operands exact: spec_fold
+            e_fin, n_fin, d_fin, f_fin, err_fin, hard = reference(n_args, flags)
+            if rv.variant == "Err":
+                kind = nl.err_kind(ex, rv.fields[0])
+                chk.oblige(ex, unit, "error-iff-exact-zero-divides-exact-accumulator", z3.And(z3.BoolVal(kind == "DivisionByZero"), err_fin), inputs, replay_value)
+                continue
+            val = rv.fields[0]
+            if not (isinstance(val, Adt) and val.variant == "Number"):
+                raise Unsupported("fold result is not Value::Number: %r" % (val,))
+            kind, rn, rd, rr = nl.result_number(ex, val.fields[0])
+            if kind == "Real" and not e_fin:
+                same = nl.fp_same(rr, f_fin)
+                if name == "+" or (name == "-" and n_args == 1):
+                    same = z3.Or(same, z3.And(z3.fpIsZero(rr), z3.fpIsZero(f_fin)))
+                if hard:
+                    same = z3.BoolVal(True)
+                chk.oblige(ex, unit, "left-fold-ieee-binary32", z3.And(z3.Not(err_fin), same), inputs, replay_value)
+            else:
+                chk.oblige(ex, unit, "inexact-operand-gives-inexact-result", z3.BoolVal(False), inputs, replay_value)
+    return ex, f
+
+
 # ------------------------------------------------------------------------------------------------ literals
 def spec_literal(chk):
     ex = chk.executor(True)
@@ -533,6 +684,7 @@ def run(chk):
         "no-panic clause": "all components below 2^15 in magnitude for + - * / abs floor ceiling; below 2^7 for floor-quotient/-remainder (two chained operations)",
         "n-ary folds": "0..%d arguments" % (4 if thorough else 3),
         "literal conversion": "all i32 numerators, all u32 denominators",
+        "folds with inexact operands": "<= 3 operands, each an integer below 2^10 in magnitude or any binary32; value compared bit-for-bit with the left fold of the IEEE operations, except (/ i j x) with i/j a proper ratio, where only the error condition and the exactness class are compared",
         "release-profile MIR (wrapping arithmetic)": "thorough tier only" if not thorough else "encoded, operands below 2^15 (outside: known finding)",
     }
     chk.assumptions += [
@@ -551,6 +703,8 @@ def run(chk):
     N = 4 if thorough else 3
     for name, fn in (("+", "base::add"), ("-", "base::sub"), ("*", "base::mul"), ("/", "base::div")):
         spec_fold(chk, name, fn, N)
+    for name, fn in (("+", "base::add"), ("-", "base::sub"), ("*", "base::mul"), ("/", "base::div")):
+        chk.step("mixed fold " + name, spec_fold_mixed, chk, name, fn)
     spec_literal(chk)
     if thorough:
         for op in ("add", "sub", "mul", "div"):
